@@ -325,6 +325,36 @@ func runProd(t *testing.T, tk []string) string {
 	}
 	// leader mover
 	stop := make(chan struct{})
+	var outage sim.LeaderOutage
+	if seed%4 == 1 {
+		// a partition of "t" reports LEADER_NOT_AVAILABLE in metadata for a while (until the final Flush, or for good
+		// when the client is closed midway): records buffered for it wait for a leader, and every fail-everything
+		// path (Close, AbortBufferedRecords) must still reach them
+		outage.Install(net)
+		mwg.Add(1)
+		go func() {
+			defer mwg.Done()
+			orng := hx.NewRng(seed ^ 0x6f7574)
+			select {
+			case <-stop:
+				return
+			case <-time.After(time.Duration(20+orng.Intn(150)) * time.Millisecond):
+			}
+			outage.Set("t", int32(orng.Intn(3)), true)
+			cl.ForceMetadataRefresh()
+			hx.St.Inc("fault.leader-outage")
+			if closeat > 0 {
+				return // the leader stays away until the client is closed
+			}
+			// otherwise the leader comes back by itself (a ProduceSync of a record for that partition waits for it)
+			select {
+			case <-stop:
+			case <-time.After(time.Duration(100+orng.Intn(500)) * time.Millisecond):
+			}
+			outage.Clear()
+			cl.ForceMetadataRefresh()
+		}()
+	}
 	if brokers > 1 {
 		mwg.Add(1)
 		go func() {
@@ -362,6 +392,8 @@ func runProd(t *testing.T, tk []string) string {
 		faultsOn.Store(false)
 		close(stop)
 		mwg.Wait()
+		outage.Clear() // the leader is back before the final Flush
+		cl.ForceMetadataRefresh()
 		k := flushN.Add(1)
 		fctx, fc := context.WithTimeout(ctx, 60*time.Second)
 		log.Add("Fs:%d", k)
